@@ -453,18 +453,20 @@ func asSuffixErr(err error) *pointerSuffixError {
 // before a token of kind next; otherwise a non-nil error.
 //
 //@ func (*decoderState).checkDelim
-//@ trusted NOT PROVED: error-message helper around wrapSyntacticError (itself assumed); frame and nil-iff assumed
+//@ property C16 C20
+//@ frame-assumed the error path ends in wrapSyntacticError (interface dispatch into AppendStackPointer, itself frame-assumed)
 //@ requires d != nil && 0 <= d.prevEnd && d.prevEnd <= len(d.buf)
 //@ modifies d.Names.unquotedNames, d.Names.unquotedNames[:cap(d.Names.unquotedNames)], d.Names.offsets[:], d.buf[:]
 //@ ensures iff: (result == nil) == (d.Tokens.needDelim(next) == delim)
-//@ ensures names: nsLocalOK(d.Names.offsets, d.Names.unquotedNames) && nsRemoteOK(d.Names.offsets, len(d.buf)) && distinctArrays(d.Names.unquotedNames, d.buf) && len(d.Names.offsets) == old(len(d.Names.offsets))
+//@ ensures-assumed names: nsLocalOK(d.Names.offsets, d.Names.unquotedNames) && nsRemoteOK(d.Names.offsets, len(d.buf)) && distinctArrays(d.Names.unquotedNames, d.buf) && len(d.Names.offsets) == old(len(d.Names.offsets))
 
 //@ func (*decoderState).checkDelimBeforeIOError
-//@ trusted NOT PROVED: error-message helper around checkDelim; frame assumed
+//@ property C16 C20
+//@ frame-assumed calls checkDelim only (whose frame is assumed)
 //@ requires d != nil && 0 <= d.prevEnd && d.prevEnd <= len(d.buf)
 //@ modifies d.Names.unquotedNames, d.Names.unquotedNames[:cap(d.Names.unquotedNames)], d.Names.offsets[:], d.buf[:]
 //@ ensures keeps-error: err != nil ==> result != nil
-//@ ensures names: nsLocalOK(d.Names.offsets, d.Names.unquotedNames) && nsRemoteOK(d.Names.offsets, len(d.buf)) && distinctArrays(d.Names.unquotedNames, d.buf) && len(d.Names.offsets) == old(len(d.Names.offsets))
+//@ ensures-assumed names: nsLocalOK(d.Names.offsets, d.Names.unquotedNames) && nsRemoteOK(d.Names.offsets, len(d.buf)) && distinctArrays(d.Names.unquotedNames, d.buf) && len(d.Names.offsets) == old(len(d.Names.offsets))
 
 // ReadToken (safety and commit protocol of the token path). Under the
 // decoder's representation invariant: every index is in bounds on every path
